@@ -19,3 +19,4 @@ jwk_item_t *g_cb_pool_key; json_t *g_cb_pool_node;
 size_t g_b64_g;
 /* DER ghosts of the OpenSSL model (contracts/openssl_model.h) */
 const void *g_der_buf; const struct ECDSA_SIG_st *g_der_sig;
+int g_lib_fail; unsigned g_ver_calls;
